@@ -866,6 +866,89 @@ def drv_tighten(case):
                             ncomb=res["ncomb"], after=qb, model=qb, wide=size > 3000))
     return out
 
+def drv_poly_history(case):
+    """a history of public calls on ONE live polyhedron object (machine PuanPolyAPI): case = {"init": {rows, cols, index}, "calls": [...]};
+    every step records the call's result and the projected receiver; what the object should denote at each point is derived by
+    TLC from the initial declaration and the recorded results (PuanPolyOps.PolyHistV), never re-read from the object"""
+    import numpy, puan, puan.ndarray as pnd
+    tok = proj.Tok()
+    init = case["init"]
+    k = case.get("k", 0)
+    dt = [None, None, "int32", "int16"][k % 4]
+    P = _poly({"rows": [[r["b"]] + list(r["a"]) for r in init["rows"]], "bounds": [[c["lo"], c["hi"]] for c in init["cols"]],
+               "ids": [c["id"] for c in init["cols"]], "index": list(init["index"]), "k": k, "dtype": dt})
+    for c in init["cols"]: tok(c["id"])
+    for i in init["index"]: tok(i)
+    use_alias = bool(k % 2)
+    steps = []
+    L = lambda x: numpy.asarray(x).tolist()
+    I2 = lambda rows: [[proj.I(x) for x in r] for r in rows]
+    for call in case["calls"]:
+        st = {"call": call, "exc": "", "res": 0, "new": {"rows": [], "cols": [], "index": []}, "fixed": [], "val": [], "rflags": [],
+              "points": [], "ndim": 1, "vars": []}
+        try:
+            cols = list(P.variables)[1:]
+            if call == "A": st["res"] = I2(L(P.A)) if P.shape[0] else []
+            elif call == "b": st["res"] = [proj.I(x) for x in L(P.b)]
+            elif call == "to_linalg":
+                A_, b_ = P.to_linalg()
+                st["res"] = {"A": I2(L(A_)) if P.shape[0] else [], "b": [proj.I(x) for x in L(b_)]}
+            elif call == "column_bounds": st["res"] = I2(L(P.column_bounds()))
+            elif call == "row_bounds": st["res"] = I2(L(P.row_bounds()))
+            elif call == "ncomb": st["res"] = [proj.I(x) for x in L(P.n_row_combinations)]
+            elif call == "tighten": st["res"] = I2(L(P.tighten_column_bounds()))
+            elif call == "red_rows":
+                st["rflags"] = [proj.I(x) for x in L(pnd.reducable_rows(P) if use_alias else P.reducable_rows())]
+            elif call == "red_cols":
+                st["fixed"], st["val"] = _cv(pnd.reducable_columns_approx(P) if use_alias else P.reducable_columns_approx())
+            elif call == "rr_and_c":
+                rr, cc = P.reducable_rows_and_columns()
+                st["rflags"] = [proj.I(x) for x in L(rr)]; st["fixed"], st["val"] = _cv(cc)
+            elif call in ("sat", "sep", "rowsep"):
+                lo = [int(v.bounds.lower) for v in cols]; hi = [int(v.bounds.upper) for v in cols]
+                mid = [l if j % 2 else h for j, (l, h) in enumerate(zip(lo, hi))]
+                pts = [lo, [[lo, hi], [mid, lo]], [[[lo, hi], [hi, mid]], [[mid, mid], [hi, lo]]], hi][(k + len(steps)) % 4]
+                arr = numpy.array(pts, dtype=numpy.int64)
+                fn = {"sat": P.ineqs_satisfied, "sep": P.separable, "rowsep": P.ineq_separate_points}[call]
+                r = numpy.asarray(fn(arr))
+                st["points"], st["ndim"] = pts, int(arr.ndim)
+                st["res"] = proj.I(r) if r.ndim == 0 else _nest((r * 1).tolist())
+            elif call == "idx":
+                st["vars"] = [{"id": tok(v.id), "lo": proj.I(v.bounds.lower), "hi": proj.I(v.bounds.upper)} for v in list(P.variables)]
+                st["res"] = {"b": [proj.I(x) for x in L(P.boolean_variable_indices)], "i": [proj.I(x) for x in L(P.integer_variable_indices)]}
+            elif call == "copy": st["res"] = _pp(P.copy(), tok)
+            elif call == "rewrap": st["res"] = _pp(pnd.ge_polyhedron(P, variables=list(P.variables), index=list(P.index)), tok)
+            elif call == "neglectable":
+                if P.shape[0] and P.shape[1] > 1: P.neglectable_columns(numpy.array([[1] + [0] * (P.shape[1] - 2)], dtype=numpy.int64))
+            elif call in ("reduce_cols", "reduce_cols_q"):
+                cv = pnd.reducable_columns_approx(P) if use_alias else P.reducable_columns_approx()
+                st["fixed"], st["val"] = _cv(cv)
+                Q = pnd.reduce_columns(P, cv) if use_alias else P.reduce_columns(cv)
+            elif call in ("reduce_rows", "reduce_rows_q"):
+                rv = pnd.reducable_rows(P) if use_alias else P.reducable_rows()
+                st["rflags"] = [proj.I(x) for x in L(rv)]
+                Q = pnd.reduce_rows(P, rv) if use_alias else P.reduce_rows(rv)
+            elif call in ("reduce_both", "reduce_both_q"):
+                rr, cc = P.reducable_rows_and_columns()
+                st["rflags"] = [proj.I(x) for x in L(rr)]; st["fixed"], st["val"] = _cv(cc)
+                Q = P.reduce(rr, cc)
+            elif call == "edit": P[0, -1] += 1
+            elif call == "widen":
+                v = list(P.variables)[-1]
+                if k % 2: P.variables[-1] = puan.variable(v.id, (int(v.bounds.lower), int(v.bounds.upper) + 1))
+                else: v.bounds.upper = int(v.bounds.upper) + 1
+            else: raise ValueError("unknown call " + call)
+        except (KeyboardInterrupt, SystemExit): raise
+        except BaseException as ex:
+            st["exc"] = type(ex).__name__; st["after"] = _pp(P, tok); steps.append(st); break
+        st["after"] = _pp(P, tok)
+        if call in ("reduce_cols", "reduce_rows", "reduce_both", "reduce_cols_q", "reduce_rows_q", "reduce_both_q"):
+            st["new"] = _pp(Q, tok)
+            if not call.endswith("_q"): P = Q                           # the caller goes on with the returned polyhedron
+        steps.append(st)
+    return [{"op": "poly_history", "init": {"rows": init["rows"], "cols": [{"id": tok(c["id"]), "lo": c["lo"], "hi": c["hi"]} for c in init["cols"]],
+                                             "index": [tok(i) for i in init["index"]]}, "steps": steps}]
+
 def _nest(a):
     import numpy
     return [[proj.I(x) for x in r] if isinstance(r, list) and (not r or not isinstance(r[0], list)) else _nest(r) for r in a] \
